@@ -36,6 +36,26 @@ theorem readChunks_chunkEnd {f : Bytes} {ds : Option Ds64} {fuel pos : Nat} {t :
   rw [readChunks, hh]
   simp only [h1, h2, ↓reduceIte]
 
+/-- one iteration of `_read_chunks` on a chunk that ends inside the file: recorded, the walk carries on behind it -/
+theorem readChunks_continue {f : Bytes} {ds : Option Ds64} {fuel pos : Nat} {t : Table} {w : List Warn}
+    {id : Bytes} {sz : Nat} (hh : readChunkHeader f ds pos = .hdr id sz)
+    (h1 : ¬ pos + 8 + (sz + sz % 2) > f.length) :
+    readChunks f ds (fuel + 1) pos t w = readChunks f ds fuel (pos + 8 + (sz + sz % 2)) ((id, sz, pos) :: t) w := by
+  rw [readChunks, hh]
+  simp only [h1, ↓reduceIte]
+
+/-- one iteration of `_read_chunks` on an odd-sized `data` chunk that lacks only its pad byte: recorded with the
+"missing padding byte" warning -/
+theorem readChunks_dataPad {f : Bytes} {ds : Option Ds64} {fuel pos : Nat} {t : Table} {w : List Warn}
+    {id : Bytes} {sz : Nat} (hh : readChunkHeader f ds pos = .hdr id sz)
+    (h1 : pos + 8 + (sz + sz % 2) > f.length)
+    (h2 : sz % 2 = 1 ∧ id = idData ∧ pos + 8 + (sz + sz % 2) = f.length + 1) :
+    readChunks f ds (fuel + 1) pos t w =
+      readChunks f ds fuel (pos + 8 + (sz + sz % 2)) ((id, sz, pos) :: t) (w ++ [.dataPad]) := by
+  rw [readChunks, hh]
+  dsimp only
+  rw [if_pos h1, if_pos h2]
+
 /-! ### prefixes of a chunk sequence -/
 
 /-- A proper prefix of an encoded chunk sequence consists of some complete chunks followed by a proper
